@@ -9,6 +9,7 @@ from vf import core
 from vf.gen import types as gt
 from vf.oracle import rt as RT
 from vf.oracle.stubeval import StubEval
+from vf.oracle import tdnames as TDN
 
 NFUNC = 10
 _HIER = __import__("re").compile(r"(?<![\w.'])(A|B|C|D|M|R1|R2|X[1-6]|E[1-6]|Outer|bool|float|bytes)(?![\w'])")
@@ -140,11 +141,15 @@ def judge_build(res, tmod, traces_spec, k, stratum, wit, co=None):
     _judge_text(res, tmod, text, handed, k, stratum, wit)
 
 
+_HINTS = {}  # id(handed) -> [(hint, type)] as the documented naming scheme sees the positions of one module
+
+
 def _traces_of(tmod, traces_spec):
     from monkeytype.tracing import CallTrace
 
     traces = []
     handed = {}
+    none_ret = True
     for item in traces_spec:
         fname, args, ret = item[0], item[1], item[2]
         yld = item[3] if len(item) > 3 else None
@@ -160,6 +165,7 @@ def _traces_of(tmod, traces_spec):
             none_ret = rt_ is None or rt_ is type(None)
             rt_ = _t.Iterator[yt_] if none_ret else _t.Generator[yt_, type(None), rt_]
         handed[fname] = (at, rt_)
+        _HINTS.setdefault(id(handed), []).extend(TDN.hints_of_function(f.__qualname__, at, gt.ev(ret) if ret else None, yt_))
     return traces, handed
 
 
@@ -209,6 +215,19 @@ def _judge_text(res, tmod, text, handed, k, stratum, wit):
                 keys.setdefault(key, []).append(f"{fname}({n}): stub says {src} = {RT.show(got)}, handed type {RT.show(exp)}")
     res.shape(json.dumps([stratum, k, sorted(RT.shape(RT.to_rt(T)) for at, _ in handed.values() for T in at.values())[:6]]))
     collided = "typeddict-class-name-collision" in keys
+    # the listed finding is the ambiguity of the documented naming scheme itself: a collision is explained by it only when that
+    # scheme, re-stated independently, gives one name to two shapes among the positions of this module
+    ambiguous = TDN.ambiguous_names(_HINTS.pop(id(handed), []))
+    stub_collided = {loc.split()[-1] for kind, _d, loc in se.events if kind == "typeddict-class-name-collision"}
+    unexplained = sorted(stub_collided - ambiguous)
+    if ambiguous:
+        res.count("builds_where_documented_naming_is_ambiguous")
+    if k:
+        res.count("typeddict_builds_naming_checked")
+    if unexplained:
+        texts = keys.pop("typeddict-class-name-collision", []) + keys.pop("annotation-denotes-other-type", [])
+        keys["typeddict-classes-collide-where-documented-naming-is-unambiguous"] = [f"classes {unexplained}: " + (texts[0] if texts else "")] + texts[1:]
+        collided = False
     for key, texts in keys.items():
         if stratum == "samename" and key in ("name-not-provided-by-stub", "annotation-denotes-other-type"):
             key = "same-class-name-imported-from-two-modules"
@@ -220,7 +239,10 @@ def _judge_text(res, tmod, text, handed, k, stratum, wit):
 
 
 TD_WRAPS = ["{t}", "List[{t}]", "Dict[str, {t}]", "Tuple[{t}, int]", "Optional[{t}]", "DefaultDict[str, {t}]", "List[Dict[str, {t}]]",
-            "Tuple[{t}, {u}]", "Dict[int, List[{t}]]", "Tuple[List[{t}]]"]
+            "Tuple[{t}, {u}]", "Dict[int, List[{t}]]", "Tuple[List[{t}]]",
+            # two TypedDicts at sibling positions, each further down its own container (unambiguous under the documented naming)
+            "Tuple[List[{t}], List[{u}]]", "Tuple[{t}, List[{u}]]", "Tuple[int, List[{t}], Set[int], List[{u}]]", "Union[List[{t}], Tuple[int, int, {u}]]",
+            "Dict[str, Tuple[{t}, List[{u}]]]", "Tuple[List[{t}], Tuple[int, {u}]]"]
 
 
 def gen_td_expr(rng, fresh, fields, depth=0):
